@@ -12,6 +12,19 @@ check("C01", "exploration",
       SIM + "2-party protocol simulation with seeded peer policy, device-side reassembly oracle",
       "DESIGN.md 4/C01", "manager-world")
 
+check("C02", "exploration",
+      "Seeded JSON values (well-formed requests of every command with 0..3 mutations: member deleted / "
+      "retyped / boundary value / extra member / non-object) classified by the real manager in one of four "
+      "manager states reached by injected faults (fresh, after a device error, reconnection pending after an "
+      "injected read error, after a failed reconnection) and compared with a three-valued executable reading "
+      "of docs/protocol.md and docs/protocol-v1.md: valid requests must reach the device, invalid ones must "
+      "get a permitted code with no link activity at all (no APDU, no close/enumerate/open: a rejected request "
+      "must not trigger the pending reconnection).",
+      "Reference assumptions A1-A8 (DESIGN.md 4/C02); where the documents are silent the reference allows both "
+      "outcomes; requests that crash the handler yield no verdict here (C03).",
+      SIM + "refinement against an executable reading of the protocol documents across fault-reached manager states",
+      "DESIGN.md 4/C02", "manager-world")
+
 check("C04", "fault_enumeration",
       "One outcome injected at one step of one command's device exchange: status word (quick: every "
       "status named in the firmware headers + range boundaries + seeded others; thorough: all 65 536 "
